@@ -1,4 +1,5 @@
 SPECIFICATION Spec
+CONSTANT Bug = "none"
 CONSTANT MaxDefects = 1
 CONSTANT MaxValidations = 3
 CONSTANT MaxPending = 1
